@@ -628,6 +628,9 @@ class Delta:
                         obj = self.root
                         parent_to_obj_elem = 'root'
                         parent_to_obj_action = GETATTR
+                    else:
+                        # the iterable itself is obj[elem]: that is where a rebuilt tuple has to be put back
+                        parent, parent_to_obj_elem, parent_to_obj_action = obj, elem, action
                 else:
                     continue  # pragma: no cover. Due to cPython peephole optimizer, this line doesn't get covered. https://github.com/nedbat/coveragepy/issues/198
                 # import pytest; pytest.set_trace()
